@@ -5,8 +5,11 @@ import (
 	"path/filepath"
 	"sync"
 	"testing"
+	"time"
 
 	"github.com/nuetzliches/hookaido/internal/verifkit/runner"
+	workerapipb "github.com/nuetzliches/hookaido/internal/workerapi/proto"
+	"google.golang.org/protobuf/types/known/durationpb"
 )
 
 // TestRace: side condition of the C04 schedule exploration (overlapping duplicate settlements at the pull API): the
@@ -44,6 +47,45 @@ func TestRace(t *testing.T) {
 			go func() { defer wg.Done(); w.post(endpoint+"/dequeue", map[string]any{"batch": 1, "lease_ttl": "1s"}) }()
 			wg.Wait()
 			w.a.Shutdown()
+		}
+	}
+	// Both transports at once on one pullapi.Server (transport_test.go): the lease is settled over HTTP while the
+	// worker gRPC server gets it in a batch, padded, next to a padded id nobody was handed, and a gRPC dequeue runs.
+	// Whatever the interleaving, the id nobody was handed must still be refused afterwards (witness only; the deciding
+	// enumeration is the transport search).
+	withGRPC = true
+	for _, kind := range []string{"ack", "nack", "nackdead"} {
+		for it := 0; it < 20; it++ {
+			w, err := boot("memory", filepath.Join(runner.Scratch(), "race04x"))
+			if err != nil {
+				t.Fatal(err)
+			}
+			ho := w.do(op{Kind: "deq", Batch: 1})
+			if len(ho.Obs.Items) != 1 {
+				t.Fatalf("setup dequeue returned %d items", len(ho.Obs.Items))
+			}
+			lease := w.real(ho.Obs.Items[0].Lease)
+			if _, err := w.grpcClient(); err != nil { // connected before the goroutines start: they only read the world
+				t.Fatal(err)
+			}
+			var wg sync.WaitGroup
+			wg.Add(4)
+			go func() { defer wg.Done(); w.call(kind, "", []string{lease}, false) }()
+			go func() { defer wg.Done(); w.call(kind, "grpc", []string{lease + "\n", " lease_unknown"}, true) }()
+			go func() { defer wg.Done(); w.call(kind, "grpc", []string{"\t" + lease}, false) }()
+			go func() {
+				defer wg.Done()
+				ctx, cancel := grpcCtx()
+				defer cancel()
+				w.cli.Dequeue(ctx, &workerapipb.DequeueRequest{Endpoint: endpoint, Batch: 1, LeaseTtl: durationpb.New(time.Second)})
+			}()
+			wg.Wait()
+			for _, via := range []string{"", "grpc"} {
+				if x := w.call(kind, via, []string{"lease_unknown"}, false); x.Class != "conflict" {
+					t.Errorf("%s of a lease id nobody was handed answered %s over %q after it had been refused in a padded batch", kind, x.Label, via)
+				}
+			}
+			w.shutdown()
 		}
 	}
 }
